@@ -90,6 +90,7 @@ class SimulatorImaging:
         else:
             self.psf = Kernel2D.no_blur(pixel_scales=1.0)
 
+        self.normalize_psf = normalize_psf
         self.exposure_time = exposure_time
         self.background_sky_level = background_sky_level
         self.subtract_background_sky = subtract_background_sky
@@ -167,5 +168,9 @@ class SimulatorImaging:
         image = Array2D(values=image, mask=mask)
 
         return Imaging(
-            data=image, psf=self.psf, noise_map=noise_map, check_noise_map=False
+            data=image,
+            psf=self.psf,
+            noise_map=noise_map,
+            check_noise_map=False,
+            use_normalized_psf=self.normalize_psf,
         )
